@@ -114,6 +114,10 @@ func c11admit(n, first, thereafter uint64) bool {
 }
 
 func runC11(c *Ctx) {
+	if c.G.Chance(8) {
+		runC11built(c)
+		return
+	}
 	g, r := c.G, c.R
 	w := &c11world{c: c}
 	N := pick(g, 0, 1, 2, 3, 5, 100)
